@@ -6,6 +6,7 @@ import SC.Props.C04
 import SC.Lemmas.Merge
 import SC.Lemmas.Attach
 import SC.Lemmas.Refine
+import SC.Lemmas.IdInv
 namespace SC.Props
 open SC
 
@@ -150,6 +151,48 @@ theorem C02_getitem_returns_backend_value (s : State) (oi : Nat) (o : Obj) (i : 
         simp only at hw
         rw [hnone] at hw
         simp at hw
+
+/-- C02, why a handle keeps MEANING the same position: the merge keeps the Python objects that stay
+and creates new ones for new containers, so identities that are pairwise distinct and below the
+counter before a merge are so after it, and each identity of the result is one the tree had or a
+newly drawn one — for every tree, every data, also when the merge raises. -/
+theorem C02_merge_keeps_identities_distinct (fam : Fam) {ι : Type} (d : Tr ι) (t : T) (n : Nat)
+    (hn : (Tr.ids t).Nodup) (hb : ∀ i ∈ Tr.ids t, i < n) :
+    n ≤ (updNode fam t d n).next ∧ (Tr.ids (updNode fam t d n).val).Nodup ∧
+    (∀ i ∈ Tr.ids (updNode fam t d n).val, i < (updNode fam t d n).next) ∧
+    (∀ i ∈ Tr.ids (updNode fam t d n).val, i ∈ Tr.ids t ∨ (n ≤ i ∧ i < (updNode fam t d n).next)) := by
+  have h := updNode_ids fam d t n hn hb
+  exact ⟨h.1, h.2.1, h.bound hb, h.2.2⟩
+
+/-- ... so with distinct identities the object the user holds IS the node at the path: looking the
+handle up by identity gives the node at the path, and storing through it replaces at the path. -/
+theorem C02_identity_is_position (p : List Seg) (t c new : T) (h : Nat) (hn : (Tr.ids t).Nodup)
+    (hs : Tr.sub p t = some c) (hi : c.id? = some h) :
+    Tr.find h t = some c ∧ Tr.replace h new t = Tr.setSub p t new :=
+  ⟨find_of_sub p t c h hn hs hi, replace_of_sub new p t c h hn hs hi⟩
+
+/-- C02 for a read through a NESTED CHILD HANDLE at any depth: it returns what the read's body
+returns on a node whose content is exactly the backend's current data at the handle's path, and
+changes no backend. -/
+theorem C02_child_read_runs_on_backend_content (s : State) (oi id : Nat) (o : Obj) (d : J) (p : List Seg)
+    (c : T) (op : Op)
+    (ho : s.objs[oi]? = some o) (hst : s.store o.res = some d) (hown : s.ownerOf id = some oi)
+    (hsub : Tr.sub p o.root = some c) (hid : c.id? = some id)
+    (hnd : (Tr.ids o.root).Nodup) (hlt : ∀ i ∈ Tr.ids o.root, i < s.next)
+    (hother : ∀ j o', j < oi → s.objs[j]? = some o' → id ∉ Tr.ids o'.root)
+    (hv : Valid (s.fam o) d) (hwd : d.wf = true) (hwt : o.root.wf = true)
+    (hk : kindsMatch p o.root d = true) (hns : op.skipsLoad = false) (hr : op.isRead = true) :
+    ∃ c' dc, Tr.sub p d = some dc ∧ Eqv c' dc ∧ c'.id? = some id ∧
+      (call s (.node id) op).2 =
+        (match (runBody (s.fam o) c' op (loadRoot s oi).1.next).err with
+         | some e => .error e
+         | none => .ok (runBody (s.fam o) c' op (loadRoot s oi).1.next).out) ∧
+      (call s (.node id) op).1.stores = s.stores := by
+  have hpre : preValidate (s.fam o) c.isDict op = none := by
+    cases op <;> simp_all [Op.isRead, preValidate]
+  obtain ⟨c', dc, _, h2, h3, h4, _, h6, _, h8⟩ :=
+    call_child_refines s oi id o d p c op ho hst hown hsub hid hnd hlt hother hv hwd hwt hk hns hpre
+  exact ⟨c', dc, h3, h4, h2, h6, h8 hr⟩
 
 /-- non-vacuity of attachment: a handle two levels down (dict inside a list inside the root dict)
 survives a reload that rewrites scalars around it, adds and removes keys -/
